@@ -2,7 +2,7 @@
 import ast
 
 from vstat.loader import AnalysisError
-from vstat.terms import builder, show, SELF, NONE, G, alts, walk, mentions, phi, strip_none, FULL
+from vstat.terms import IT, builder, show, SELF, NONE, G, alts, walk, mentions, phi, strip_none, FULL
 from vstat.guards import path_conditions
 from vstat.cfg import cfg_of
 from vstat.sigs import bind
@@ -216,7 +216,7 @@ def argorder(prog, rep):
                     if okc:
                         # result stored at the index of its own point
                         res_stores = [s2 for s2 in cfg_of(fn).all_stmts() if isinstance(s2, ast.Assign) and isinstance(s2.targets[0], ast.Subscript)
-                                      and b.term(s2.value, s2) == ("item", t, 0)]
+                                      and b.term(s2.value, s2) == IT(t, 0)]
                         okc = len(res_stores) == 1 and b.term(res_stores[0].targets[0].slice, res_stores[0]) == xi
                         why = "the integral of point i must be stored at index i of the result"
         rep.check(okc, "C06.argorder", f"{q}:limits", fn.where(), "limits / args in the position of dim; result at its own index", why)
